@@ -3235,6 +3235,7 @@ impl Value {
             })
         }
         let mut has_wrap_to_string = false;
+        let mut first_double_brace_left: Option<Range<Position>> = None;
         loop {
             if until(ps) || ps.ended() {
                 break;
@@ -3285,6 +3286,12 @@ impl Value {
                                 })
                             }
                         };
+                        // the value spans from its first `{{` to its last `}}`
+                        let double_brace_location = match first_double_brace_left.take() {
+                            Some(first) => (first, double_brace_location.1),
+                            None => double_brace_location,
+                        };
+                        first_double_brace_left = Some(double_brace_location.0.clone());
                         ret = Self::Dynamic {
                             expression,
                             double_brace_location,
